@@ -31,6 +31,9 @@ pub struct ExFile(std::fs::File);
 pub struct ExInstant(std::time::Instant);
 
 #[verifier::external_type_specification]
+pub struct ExSeekFrom(std::io::SeekFrom);
+
+#[verifier::external_type_specification]
 #[verifier::external_body]
 pub struct ExUtf8Error(core::str::Utf8Error);
 
